@@ -162,13 +162,13 @@ func (g *gen) genStmt() (n *Node, term bool) {
 		12, // 2 if
 		10, // 3 loop
 		8,  // 4 switch
-		5,  // 5 break/continue
+		8,  // 5 break/continue
 		3,  // 6 early return
 		8,  // 7 call statement
 		5,  // 8 defer
 		2,  // 9 panic
 		3,  // 10 block
-		7,  // 11 container statement
+		12, // 11 container statement
 		3,  // 12 tuple assign
 		4,  // 13 guarded index
 		6,  // 14 struct statement
@@ -313,6 +313,7 @@ func (g *gen) genOfFresh(typ string, d int) (ex, bool) {
 func (g *gen) noteExpr(e ex) {
 	if e.pan {
 		g.f.sig.soft = true
+		g.f.sig.dirty = true
 	}
 	if e.hard {
 		g.f.sig.hard = true
@@ -536,6 +537,7 @@ func (g *gen) stSliceElem() *Node {
 			return nil
 		}
 		g.f.sig.soft = true
+		g.f.sig.dirty = true
 	}
 	t := &Node{K: "index", A: []*Node{vr(v.name), i.n}}
 	g.noteWrite(t)
@@ -548,17 +550,7 @@ func (g *gen) stSliceElem() *Node {
 	return &Node{K: "assign", S: "=", A: []*Node{t, e.n}}
 }
 
-func (g *gen) isParam(v *vinfo) bool {
-	if len(g.f.scopes) == 0 {
-		return false
-	}
-	for _, p := range g.f.scopes[0] {
-		if p == v {
-			return true
-		}
-	}
-	return false
-}
+func (g *gen) isParam(v *vinfo) bool { return v.param }
 
 func (g *gen) stIf() (*Node, bool) {
 	n := &Node{K: "if"}
@@ -886,7 +878,7 @@ func (g *gen) loopContainer() *vinfo {
 		case "[]int":
 			c = append(c, v)
 		case "string", "[]byte":
-			if !v.growing {
+			if !v.growing && !v.maybeNil {
 				c = append(c, v)
 			}
 		}
@@ -986,11 +978,12 @@ func (g *gen) stSwitch() *Node {
 					} else {
 						e := g.genInt(1)
 						if e.konst {
-							v := int64(e.lo)
-							if usedI[v] {
+							// constant case expressions must be distinct: use a variable instead
+							ve, ok := g.intVar()
+							if !ok {
 								continue
 							}
-							usedI[v] = true
+							e = ve
 						}
 						g.noteExpr(e)
 						c.A = append(c.A, e.n)
@@ -1052,7 +1045,8 @@ func blitVar(g *gen) *Node {
 	if a, ok := g.intVar(); ok {
 		return bin("!=", a.n, a.n)
 	}
-	return bin("!=", &Node{K: "len", A: []*Node{slitS("")}}, ilit(0))
+	// (the length of a slice literal is not a constant expression)
+	return bin("!=", &Node{K: "len", A: []*Node{{K: "slit", T: "[]int"}}}, ilit(0))
 }
 
 func (g *gen) stBranch() (*Node, bool) {
@@ -1156,6 +1150,9 @@ func (g *gen) localOwned(e ex) bool {
 
 func (g *gen) stPanic() *Node {
 	g.f.sig.soft = true
+	if g.f.stackItems > 0 {
+		g.f.sig.dirty = true
+	}
 	g.mark("panic")
 	if g.chance(50) {
 		return &Node{K: "panic", A: []*Node{slitS([]string{"boom", "bad", ""}[g.n(3, "pm")])}}
@@ -1199,6 +1196,9 @@ func (g *gen) stCall() *Node {
 	if f == g.f.sig {
 		g.f.selfCalls++
 		g.mark("recursion")
+		if g.f.stackItems > 0 {
+			g.f.sig.dirty = true
+		}
 	} else {
 		g.noteCall(f)
 		if !f.pure {
@@ -1283,7 +1283,7 @@ func (g *gen) stDefer() *Node {
 	}
 	g.mark("defer")
 	g.f.sig.pure = false
-	if g.chance(40) && !(g.f.recovers && !g.on(kDeferSwallow)) {
+	if g.chance(60) && !(g.f.recovers && !g.on(kDeferSwallow)) {
 		// deferred call of a named function
 		var cs []*fsig
 		for _, f := range g.funcs {
